@@ -405,7 +405,7 @@ func (e *evilServer) proven(x peer.ID) (crypto, provenance bool) {
 
 func TestClientProvenance(t *testing.T) {
 	name := t.Name()
-	hx.Check(t, 16000, 500000, 0, func(rt *rapid.T) {
+	hx.Check(t, 12000, 500000, 0, func(rt *rapid.T) {
 		sc := drawClientScenario(rt)
 		var labels, fp []string
 		nontrivial := false
